@@ -43,6 +43,8 @@ func c10CoqEv(e c10Ev) string {
 		return fmt.Sprintf("(%d, ERecv %d %d)", e.Step, e.I, e.V)
 	case evClosed:
 		return fmt.Sprintf("(%d, EClosed %d)", e.Step, e.I)
+	case evOpen:
+		return fmt.Sprintf("(%d, EOpen %d %d)", e.Step, e.V, e.I)
 	default:
 		return fmt.Sprintf("(%d, EDone %d)", e.Step, e.V)
 	}
@@ -81,19 +83,21 @@ func c10RunCase(ctx *core.Ctx, in c10Input, kind string) error {
 		c.Facts["ambiguous"] = sm.ambiguous
 		c.Class = sm.class
 		c.Trivial = sm.fanned == 0
-		recv, closed, done := 0, 0, 0
+		recv, closed, done, open := 0, 0, 0, 0
 		for _, e := range evs {
 			switch e.Kind {
 			case evRecv:
 				recv++
 			case evClosed:
 				closed++
+			case evOpen:
+				open++
 			default:
 				done++
 			}
 		}
 		c.Observed = map[string]any{"received": recv, "channels_closed": closed, "calls_returned": done,
-			"calls_issued": sm.calls}
+			"calls_issued": sm.calls, "open_at_close_return": open}
 		c.Coq = c10CoqCase(one, evs)
 		if err != nil {
 			c.Direct, c.Note = 1, "harness: "+err.Error()
@@ -118,6 +122,10 @@ func main() {
 		Shard:    46,
 		Gen:      c10Gen,
 		RunInput: func(ctx *core.Ctx, raw json.RawMessage) error {
+			var probe c10MassInput
+			if json.Unmarshal(raw, &probe) == nil && probe.Mass {
+				return c10RunMass(ctx, probe, "replay")
+			}
 			var in c10Input
 			dec := json.NewDecoder(strings.NewReader(string(raw)))
 			if err := dec.Decode(&in); err != nil {
